@@ -65,6 +65,10 @@ Record acc_case := {
   ao_passwd : string; ao_group : string;                                  (* final text *)
   ao_old_users : option (list user_entry); ao_old_groups : option (list group_entry);   (* harness's own reader, initial text *)
   ao_users : option (list user_entry); ao_groups : option (list group_entry);           (* harness's own reader, final text *)
+  (* the repository's own readers (passwd.ReadUserFile / ReadGroupFile) on the initial and on the final file:
+     None = not compared (no regular file there), Some None = the reader returned an error *)
+  ao_impl_old_users : option (option (list user_entry)); ao_impl_old_groups : option (option (list group_entry));
+  ao_impl_users : option (option (list user_entry)); ao_impl_groups : option (option (list group_entry));
   ao_homes : list (option sinfo * option sinfo);                          (* Stat(home) before / after, per configured user *)
   ao_dump : list dentry;
   ao_layer : list dentry
@@ -139,10 +143,19 @@ Definition acc_violations (c : acc_case) : list string :=
           end
    end).
 
+Definition parse_agrees {E} (eqb : E -> E -> bool) (model : option (list E)) (impl : option (option (list E))) : bool :=
+  match impl with
+  | None => true
+  | Some i => option_eqb (list_eqb eqb) model i
+  end.
+
 Definition acc_mismatches (c : acc_case) : list string :=
   let maxl := backend_maxl (a_backend c) in
   match run_setup maxl (empty_fs root_perm) (a_setup c) with
   | FOk f0 =>
+      (* the parsers, on the text that was there before *)
+      tag_if (negb (parse_agrees ue_eqb (parse_users (file_text maxl f0 etc_passwd)) (ao_impl_old_users c))) "mismatch:passwd-parse-initial" ++
+      tag_if (negb (parse_agrees ge_eqb (parse_groups (file_text maxl f0 etc_group)) (ao_impl_old_groups c))) "mismatch:group-parse-initial" ++
       match mutate_accounts maxl f0 (a_users c) (a_groups c) (a_run_as c) with
       | FFuel => ["mismatch:model-out-of-fuel"]
       | FOk (f1, ra) =>
@@ -161,6 +174,8 @@ Definition acc_mismatches (c : acc_case) : list string :=
           tag_if (negb (dump_same (dump f1) (ao_dump c))) "mismatch:tree" ++
           tag_if (negb (dump_same (layer_of f1) (ao_layer c))) "mismatch:layer" ++
           (* the harness's own reader and the model's reader agree on the final text *)
+          tag_if (negb (parse_agrees ue_eqb (parse_users (ao_passwd c)) (ao_impl_users c))) "mismatch:passwd-parse-final" ++
+          tag_if (negb (parse_agrees ge_eqb (parse_groups (ao_group c)) (ao_impl_groups c))) "mismatch:group-parse-final" ++
           tag_if (negb (match parse_users (ao_passwd c), ao_users c with
                         | Some a, Some b => list_eqb ue_eqb a b | None, None => true | _, _ => false end))
                  "mismatch:passwd-readers-disagree"
